@@ -124,18 +124,20 @@ Inductive set_result :=
 | SetNotFound                   (* "migration with version %q not found" *)
 | SetArgs.                      (* "accepts 1 arg(s), received 0" on an empty table *)
 
+(** As fixed (C11-set-on-partial-revision): [r.Type = Execute | Resolved; r.Applied = r.Total]. *)
 Definition resolve (r : rev) : rev :=
-  mkRev (r_version r) (r_applied r) (r_total r) (r_hashes r) (r_err r) 6%N.   (* Execute | Resolved *)
+  mkRev (r_version r) (r_total r) (r_total r) (r_hashes r) (r_err r) 6%N.   (* Execute | Resolved *)
 
 Definition resolved_rev (f : file) : rev := mkRev (f_version f) 0 0 [] false 4%N.  (* Resolved *)
 
 (** [for _, r := range revs { switch { case r.Version > version: delete;
-    case r.Version == version && (r.Error != "" || r.Total != r.Applied): resolve } }]:
+    case r.Error != "" || r.Total != r.Applied: resolve } }] (as fixed: every kept row with an
+    error or partially applied, not only the row of [version]):
     every row is deleted, rewritten in place, or kept. *)
 Definition set_loop (version : bytes) (revs : list rev) : list rev :=
   flat_map (fun r =>
     if bytes_ltb version (r_version r) then []
-    else if bytes_eqb (r_version r) version && (r_err r || negb (r_total r =? r_applied r)) then [resolve r]
+    else if r_err r || negb (r_total r =? r_applied r) then [resolve r]
     else [r]) revs.
 
 (** [len(revs) == 0]: every file until one exceeds the target ([break]). *)
